@@ -16,6 +16,26 @@ CHECKS = {
                  "suite (305 symbols, literal spot values) cannot; float rounding is bounded only syntactically (homogeneous rows).",
         "note": NOTE,
     },
+    "C03": {
+        "technique": "operation-table extraction (lambda operators and argument order) from the delegating database operations; def-use "
+                     "(non-dependence) analysis of the exponent in unit matching; CFG must-pass-through of the value conversion before "
+                     "a unit label is rewritten; dispatch-table check of the add/sub dunders",
+        "level": "Structural necessary conditions for all dimension-compatible operand pairs: Sum/Subtract apply +/- after unit matching to the "
+                 "unchanged operands in order; the left operand's units and quantity win; a unit label is never rewritten without converting the "
+                 "value in the same step; the dunders dispatch correctly. The exponent of a composing entry provably does not reach the "
+                 "conversion (no dataflow) - a sound refutation of the property for derived operands with exponent != 1, recorded as a finding.",
+        "note": NOTE,
+    },
+    "C04": {
+        "technique": "exhaustive dispatch-table check over all 20 binary dunders of Scalar and Array (sibling agreement); operation-table extraction "
+                     "of the (exponent, value) operator pairs; CFG dominance of the zero-exponent removal loop; idiom check of __pow__; shared "
+                     "unit-matching rules of C03",
+        "level": "All ten operators x two classes x both operand orders dispatch to the matching database operation with the right operand order "
+                 "and number callback; exponent and value operators match per operation; exponents are merged in operand order and zero "
+                 "exponents removed on every path to the created quantity; __pow__ is the (n-1)-fold product. The exponent-blind unit matching is "
+                 "a recorded finding (same root cause as C03).",
+        "note": NOTE,
+    },
     "C05": {
         "technique": "CFG dominance / must-raise / must-pass-through queries on the rejecting guards; guarded-selection analysis of GetInfo "
                      "(origin + unit fact + quantity-type fact per returned value, from dominating equality tests); transitive write-effect "
@@ -56,6 +76,15 @@ CHECKS = {
                  "cannot raise; total_ordering classes must project `other` identically in __lt__ and __eq__ (Scalar and FractionScalar do not: "
                  "recorded findings); __lt__ converts other into self's unit and compares in the right orientation; cross-quantity-type "
                  "ordering must-raise TypeError on all four operators; hash reads a subset of eq.",
+        "note": NOTE,
+    },
+    "C09": {
+        "technique": "classification of every return of the two _DoOperation dispatchers (def-use terms, dominating guards); literal extraction of "
+                     "the number-type set; exhaustive dispatch-table check; class-attribute check for numpy's operator opt-out",
+        "level": "Every return of Scalar/Array._DoOperation is a new object built with a quantity (no shortcut returns an operand or a bare "
+                 "number); number arms keep the own quantity and the written operand order; k / x puts the empty quantity on the number's side; "
+                 "IsNumber covers python and numpy numbers; all 20 dunders exist. That numpy never hands control to the reflected dunders for "
+                 "ndarray (and numpy-scalar) left operands is decided from the missing opt-out and recorded as two findings.",
         "note": NOTE,
     },
     "C10": {
